@@ -35,3 +35,13 @@ func VerifLitmusFail() {
 	x := ndU16("x")
 	vAssert(x != 0xFFFE, "x is never fffe")
 }
+
+func VerifLitmusForks() {
+	n := 0
+	for i := 0; i < 10; i++ {
+		if ndBool("b") {
+			n++
+		}
+	}
+	vObserve("n", n)
+}
